@@ -20,7 +20,7 @@ from __future__ import annotations
 
 import ast
 
-from .. import ctx
+from .. import ctx, paths
 from ..cfg import CFG
 from ..fnview import FnView
 from ..pattern import canon, match
@@ -278,38 +278,74 @@ def f5(run, project, L):
            f"Command size field at {size_c}, Response at {size_r}", construct="header layout")
     mod = project.module(PCAP)
     fn = mod.function("tpm_pkgs_from_pcap_file")
-    conv = [c for c in walk_no_nested(fn) if isinstance(c, ast.Call) and norm(c.func) == "int.from_bytes"]
-    run.require(len(conv) == 1, "F5: size extraction of the pcapng front-end not found")
-    c = conv[0]
-    sl = c.args[0]
-    ok = isinstance(sl, ast.Subscript) and isinstance(sl.slice, ast.Slice) and isinstance(sl.slice.lower, ast.Constant) \
-        and isinstance(sl.slice.upper, ast.Constant) and (sl.slice.lower.value, sl.slice.upper.value) == (size_c[0], size_c[0] + size_c[1])
-    run.ob("F5", ok, f"packet size is read from bytes [{size_c[0]}:{size_c[0] + size_c[1]}] (the size field per L)",
-           f"size is read from `{norm(sl)}`", module=mod, node=c, func=fn.name, construct="pcapng size slice")
-    bo = kwarg(c, "byteorder")
-    run.ob("F5", isinstance(bo, ast.Constant) and bo.value == "big" and kwarg(c, "signed") is None, "size field read big-endian unsigned",
-           f"byteorder={norm(bo) if bo is not None else None}", module=mod, node=c, func=fn.name, construct="pcapng size byteorder")
-    runt = [s for s in walk_no_nested(fn) if isinstance(s, ast.If) and isinstance(s.test, ast.Compare) and norm(s.test.left).startswith("len(")
-            and isinstance(s.test.ops[0], ast.Lt)]
-    ok = len(runt) == 1 and isinstance(runt[0].test.comparators[0], ast.Constant) and runt[0].test.comparators[0].value == lc \
-        and [norm(x) for x in runt[0].body] == ["continue"]
-    run.ob("F5", ok, f"packets shorter than the {lc}-byte header are skipped", f"runt test is `{norm(runt[0].test) if runt else None}`",
-           module=mod, node=runt[0] if runt else fn, func=fn.name, construct="pcapng runt threshold")
-    V = FnView(mod, fn)
-    if runt:
-        run.ob("F5", V.dominates(runt[0].test, c), "the runt test precedes the size extraction", "size is read before the length test",
-               module=mod, node=c, func=fn.name, construct="pcapng runt before size")
-    size_var = c._parent.targets[0].id if isinstance(c._parent, ast.Assign) else None
-    trims = [s for s in walk_no_nested(fn) if isinstance(s, ast.Assign) and isinstance(s.value, ast.Subscript) and isinstance(s.value.slice, ast.Slice)
-             and s.value.slice.lower is None and norm(s.value.slice.upper) == size_var]
-    ok = len(trims) == 1 and norm(trims[0].targets[0]) == norm(trims[0].value.value)
-    run.ob("F5", ok, "payload is trimmed to its own size field (never extended)", "trimming statement changed", module=mod,
-           node=trims[0] if trims else fn, func=fn.name, construct="pcapng trimming")
-    ys = [y for y in walk_no_nested(fn) if isinstance(y, ast.Yield)]
-    run.ob("F5", len(ys) == 1 and trims and norm(ys[0].value) == norm(trims[0].targets[0]), "exactly the (trimmed) payload is yielded per packet",
-           "yield of the packet payload changed", module=mod, node=ys[0] if ys else fn, func=fn.name, construct="pcapng yield")
+    outer = [s_ for s_ in fn.body if isinstance(s_, ast.For)]
+    run.require(len(outer) == 1, "F5: packet loop of the pcapng front-end not found")
+    S = paths.Summariser(mod, fn)
+    body = {repr(b_): b_ for t_ in S.paths() for b_ in t_.loops.get(id(outer[0]), [])}
+    run.require(len(body) >= 2, "F5: paths of the pcapng packet loop not found")
+    lo, hi = size_c[0], size_c[0] + size_c[1]
+    bases = set()
+
+    def trimmed(y):
+        """(base, lower, upper) if y is `B[:int.from_bytes(B[a:b], byteorder='big')]`"""
+        if isinstance(y, ast.Subscript) and isinstance(y.slice, ast.Slice) and y.slice.lower is None and y.slice.step is None:
+            m = match(y.slice.upper, "int.from_bytes(M_b[M_lo:M_hi], byteorder='big')")
+            if m is not None and norm(m["M_b"]) == norm(y.value) and isinstance(m["M_lo"], ast.Constant) and isinstance(m["M_hi"], ast.Constant):
+                return norm(y.value), m["M_lo"].value, m["M_hi"].value
+        return None
+    n_yield = 0
+    for bp in body.values():
+        label = " & ".join(("" if v else "not ") + a_ for a_, v, _ in bp.cond if not a_.startswith(("try@", "loop@"))) or "always"
+        ys = [(e, n_) for k, e, n_ in bp.effects if k == "yield"]
+        if bp.end == "raise":
+            continue
+        if len(ys) > 1:
+            run.ob("F5", False, f"pcapng [{label}]", f"{len(ys)} payloads are yielded for one packet", module=mod, node=ys[1][1],
+                   func=fn.name, construct="pcapng yield")
+            continue
+        if not ys:
+            # a skipped packet: only empty packets and runts (shorter than the header) may be dropped
+            ok = any((a_.startswith("truthy ") and not v) or (a_.startswith("len(") and a_.endswith(f" < {lc}") and v) for a_, v, _ in bp.cond)
+            run.ob("F5", ok, f"pcapng [{label}]: packet skipped", f"a packet is dropped although it is neither empty nor shorter than the "
+                   f"{lc}-byte header", module=mod, node=bp.node or fn, func=fn.name, construct="pcapng runt threshold")
+            continue
+        n_yield += 1
+        y, yn = ys[0]
+        t = trimmed(y)
+        base = t[0] if t else norm(y)
+        bases.add(base)
+        R = f"len({base}) < {lc}"
+        runt_known = bp.truth(R) is False
+        run.ob("F5", runt_known, f"pcapng [{label}]: packets shorter than the {lc}-byte header are skipped",
+               f"a payload is yielded without `{R}` having been excluded first (runt test is "
+               f"{[a_ for a_, _v, _ in bp.cond if a_.startswith('len(')]})", module=mod, node=yn, func=fn.name,
+               construct="pcapng runt threshold")
+        size_atoms = [(i, a_) for i, (a_, _v, _) in enumerate(bp.cond) if "int.from_bytes(" in a_]
+        r_idx = [i for i, (a_, _v, _) in enumerate(bp.cond) if a_ == R]
+        if size_atoms and r_idx:
+            run.ob("F5", r_idx[0] < size_atoms[0][0], "the runt test precedes the size extraction", "size is read before the length test",
+                   module=mod, node=yn, func=fn.name, construct="pcapng runt before size")
+        if t:
+            run.ob("F5", (t[1], t[2]) == (lo, hi), f"packet size is read from bytes [{lo}:{hi}] (the size field per L), big-endian unsigned",
+                   f"size is read from `{base}[{t[1]}:{t[2]}]`", module=mod, node=yn, func=fn.name, construct="pcapng size slice")
+        else:
+            # untrimmed: only when the announced size equals the packet length
+            SZ = f"int.from_bytes({base}[{lo}:{hi}], byteorder='big')"
+            eq = bp.truth(f"{SZ} == len({base})")
+            run.ob("F5", eq is True, "payload is trimmed to its own size field (never extended)",
+                   f"on the path [{label}] the whole packet `{norm(y)}` is yielded although its size field may announce fewer bytes "
+                   f"(trimming statement changed; size conditions: {[a_ for _i, a_ in size_atoms]})", module=mod, node=yn, func=fn.name,
+                   construct="pcapng trimming")
+    run.ob("F5", n_yield >= 1 and len(bases) == 1, "exactly the (trimmed) payload is yielded per packet",
+           f"yield of the packet payload changed: bases {sorted(bases)}", module=mod, node=fn, func=fn.name, construct="pcapng yield")
     bf = mod.function("bytes_from_pcap_file")
-    ok = canon("for pkg_bytes in tpm_pkgs_from_pcap_file(file):\n    yield from pkg_bytes") == norm(bf.body[-1])
+    bps = paths.Summariser(mod, bf).paths()
+    lps = [(e, n_) for t_ in bps for k, e, n_ in t_.effects if k == "loop"]
+    ok = len(bps) == 1 and len(lps) == 1 and isinstance(lps[0][1], ast.For) and isinstance(lps[0][1].target, ast.Name) \
+        and paths.text(lps[0][0]) == f"tpm_pkgs_from_pcap_file({bf.args.args[0].arg})" and len(bps[0].effects) == 1
+    if ok:
+        sub = bps[0].loops[id(lps[0][1])]
+        ok = len(sub) == 1 and sub[0].effect_texts() == [("yieldfrom", lps[0][1].target.id)] and not sub[0].cond
     run.ob("F5", ok, "packet payloads are concatenated in capture order", "bytes_from_pcap_file changed", module=mod, node=bf,
            func=bf.name, construct="bytes_from_pcap_file")
     # auto detection
@@ -375,55 +411,100 @@ def f6(run, project):
     run.ob("F6", len(states) == 4 and len(set(states.values())) == 4, "four distinct scanner states", f"states: {states}", module=mod,
            node=mod.tree, func="<module>", construct="STATE constants")
     fn = mod.function("parse_hex_string")
-    loops = [s for s in fn.body if isinstance(s, ast.While)]
+    loops = [s_ for s_ in fn.body if isinstance(s_, ast.While)]
     run.require(len(loops) == 1, "F6: scanner loop not found")
     lp = loops[0]
-    chains = [s for s in lp.body if isinstance(s, ast.If) and norm(s.test).startswith("state ==")]
-    run.require(len(chains) == 1, "F6: state dispatch chain not found")
-    ch = if_chain(chains[0])
-    tested = [norm(t.comparators[0]) for t, _ in ch if t is not None and isinstance(t, ast.Compare)]
-    run.ob("F6", sorted(tested) == sorted(states) and all(t is not None for t, _ in ch), "every state has exactly one branch",
-           f"branches: {tested}", module=mod, node=chains[0], func=fn.name, construct="state dispatch")
-    for t, body in ch:
-        if t is None:
+    for a_ in [s_ for s_ in ast.walk(fn) if isinstance(s_, ast.Assign) and norm(s_.targets[0]) == "state"]:
+        run.ob("F6", norm(a_.value) in states, f"state = {norm(a_.value)} is a defined state", f"state is set to `{norm(a_.value)}`",
+               module=mod, node=a_, func=fn.name, construct=norm(a_))
+    # ---- the transition table, extracted from the summaries of one loop iteration
+    S = paths.Summariser(mod, fn)
+    top = S.paths()
+    body = {}
+    for t_ in top:
+        for b_ in t_.loops.get(id(lp), []):
+            body.setdefault(repr(b_), b_)
+    run.require(len(body) >= 12, f"F6: only {len(body)} transitions of the scanner found")
+    bvars = {norm(e.targets[0]) for b_ in body.values() for k, e, _ in b_.effects if k == "bind" and "next(" in norm(e.value)}
+    run.require(len(bvars) == 1, f"F6: the scanner's input byte variable not found ({sorted(bvars)})")
+    bv = bvars.pop()
+    M, ST, HI, LO = "STATE_WANT_CMD_MARKER", "STATE_WANT_CMD_START", "STATE_WANT_HIGH_NIBBLE", "STATE_WANT_LOW_NIBBLE"
+    RAISE, RET = ("raise", "-", "-", "-", ()), ("return", "-", "-", "-", ())
+    EOF = "EOF"
+
+    def nxt(state="-", value="-", marker="-", ys=()):
+        return ("next", state, value, marker, tuple(ys))
+    b = bv
+    spec = {
+        M: ([({EOF: True, "truthy marker": True}, RAISE), ({EOF: True}, RET),
+             ({f"{b} == CMD_MARKER[len(marker):len(marker) + 1]": True, f"marker + {b} == CMD_MARKER": True}, nxt(ST, marker="bytes()")),
+             ({f"{b} == CMD_MARKER[len(marker):len(marker) + 1]": True}, nxt(marker=f"marker + {b}"))], nxt(marker="bytes()")),
+        ST: ([({EOF: True}, RAISE), ({f"{b} == b'\\n'": True}, nxt(HI))], nxt()),
+        HI: ([({EOF: True}, RET), ({f"{b} in VALID_WS": True}, nxt()), ({f"{b} == CMD_MARKER[0:1]": True}, nxt(M, marker=f"marker + {b}")),
+             ({f"{b} in VALID_HEX": False}, RAISE)], nxt(LO, value=f"value + {b}")),
+        LO: ([({EOF: True}, RAISE), ({"value == CTRL_MARKER[0:1]": True, f"{b} == CTRL_MARKER[1:2]": True}, nxt(M, value="bytes()")),
+             ({f"{b} in VALID_HEX": False}, RAISE)], nxt(HI, value="bytes()", ys=[f"int(value + {b}, 16)"])),
+    }
+    what = {M: "marker search", ST: "marker line", HI: "first digit", LO: "second digit"}
+    covered = set()
+    for bp in body.values():
+        # canonical atoms: end of input is either the StopIteration handler or `b is None`
+        q = paths.Path()
+        for a_, v, n_ in bp.cond:
+            if a_.startswith("try@") and "StopIteration" in a_:
+                a_ = EOF
+            elif a_ == f"{bv} is None":
+                a_ = EOF
+            q.cond.append((a_, v, n_))
+        if q.truth(EOF) is None:
+            q.cond.append((EOF, False, None))
+        cur = [st_ for st_ in spec if q.truth(f"state == {st_}") is True]
+        label = " & ".join(("" if v else "not ") + a_ for a_, v, _ in q.cond if not a_.startswith("state == ") or v)
+        if not cur and all(q.truth(f"state == {st_}") is False for st_ in spec):
+            # none of the defined states: unreachable (every `state =` assigns a defined state); it must at least do nothing
+            idle = bp.end in ("fall", "continue") and not bp.effect_texts(("yield", "store", "call")) and \
+                all(bp.env.get(k) is None for k in ("state", "value", "marker"))
+            run.ob("F6", idle, "no step outside the four states", "a step is taken in an undefined scanner state", module=mod,
+                   node=bp.node or lp, func=fn.name, construct="state dispatch")
             continue
-        st = norm(t.comparators[0])
-        first = body[0] if body else None
-        ok = isinstance(first, ast.If) and norm(first.test) == "b is None"
-        run.ob("F6", ok, f"{st}: end of input is handled first", "the branch does not test `b is None` first", module=mod,
-               node=first or chains[0], func=fn.name, construct=f"{st} end-of-input test")
-        if ok:
-            # end of input either returns (clean end) or raises ValueError
-            outs = [type(x).__name__ for x in first.body if isinstance(x, (ast.Return, ast.Raise))] + \
-                   [type(x).__name__ for s in first.body if isinstance(s, ast.If) for x in s.body if isinstance(x, (ast.Return, ast.Raise))]
-            run.ob("F6", bool(outs), f"{st}: end of input ends the scan", "end of input neither returns nor raises (endless loop)",
-                   module=mod, node=first, func=fn.name, construct=f"{st} end-of-input outcome")
-    for a in [s for s in ast.walk(fn) if isinstance(s, ast.Assign) and norm(s.targets[0]) == "state"]:
-        run.ob("F6", norm(a.value) in states, f"state = {norm(a.value)} is a defined state", f"state is set to `{norm(a.value)}`",
-               module=mod, node=a, func=fn.name, construct=norm(a))
-    ys = [y for y in ast.walk(fn) if isinstance(y, ast.Yield)]
-    ok = len(ys) == 1
-    if ok:
-        y = ys[0]
-        blk = y._parent._parent
-        body = blk.orelse if y._parent in getattr(blk, "orelse", []) else blk.body
-        txt = [norm(s) for s in body]
-        ok = txt[:2] == ["value += b", "i = int(value, 16)"] and "value = bytes()" in txt and norm(y.value) == "i" and \
-            "state = STATE_WANT_HIGH_NIBBLE" in txt
-        low = [t for t, b in ch if t is not None and any(y is x for s in b for x in ast.walk(s))]
-        ok = ok and len(low) == 1 and norm(low[0].comparators[0]) == "STATE_WANT_LOW_NIBBLE"
-    run.ob("F6", ok, "one byte is produced per validated digit pair, in the low-nibble state, and the pair is cleared",
-           "the byte-producing step of the scanner changed", module=mod, node=ys[0] if ys else fn, func=fn.name,
-           construct="scanner yield")
-    hi = [b for t, b in ch if t is not None and norm(t.comparators[0]) == "STATE_WANT_HIGH_NIBBLE"]
-    if hi:
-        els = if_chain(hi[0][0])[-1]
-        ok = els[0] is None and [norm(s) for s in els[1]] == ["value += b", "state = STATE_WANT_LOW_NIBBLE"]
-        run.ob("F6", ok, "a validated first digit moves to the low-nibble state", "high-nibble step changed", module=mod,
-               node=hi[0][0], func=fn.name, construct="scanner high nibble")
-        ws = [t for t, b in if_chain(hi[0][0]) if t is not None and norm(t) == "b in VALID_WS"]
-        run.ob("F6", len(ws) == 1, "whitespace between pairs is skipped", "whitespace handling changed", module=mod, node=hi[0][0],
-               func=fn.name, construct="scanner whitespace")
+        if len(cur) != 1:
+            run.ob("F6", False, f"scanner step [{label}]", "a step of the scanner is not guarded by exactly one state (every state has "
+                   "exactly one branch)", module=mod, node=bp.node or lp, func=fn.name, construct="state dispatch")
+            continue
+        cur = cur[0]
+        covered.add(cur)
+
+        def envtext(name):
+            v = bp.env.get(name)
+            if v is None:
+                return "-"
+            t = paths.text(v).replace("b''", "bytes()")
+            return "-" if t == name else t
+        end = {"fall": "next", "continue": "next", "return": "return"}.get(bp.end)
+        if bp.end == "raise":
+            end = "raise" if bp.value is not None and (call_name(bp.value) or "") == "ValueError" else "raise-other"
+        st_out = envtext("state")
+        if st_out == cur:
+            st_out = "-"
+        ys = tuple(e for k, e in bp.effect_texts(("yield",)))
+        got = (end, st_out, envtext("value"), envtext("marker"), ys) if end == "next" else (end, "-", "-", "-", ys)
+        rules, default = spec[cur]
+        want = paths.decide(rules, default, q)
+        kind = "scanner yield" if (ys or any(w[4] for w in want)) else \
+            f"{cur} end-of-input outcome" if q.truth(EOF) else \
+            "scanner whitespace" if q.truth(f"{b} in VALID_WS") or any(f"{b} in VALID_WS" in str(r) for r in ()) else \
+            "scanner high nibble" if cur == HI else f"scanner {what[cur]}"
+        run.ob("F6", want == {got}, f"{cur} [{label[:80]}]: {got[0]} -> {got[1]}",
+               f"{what[cur]} step: the scanner does (end, state, value, marker, yields) = {got} where the documented log format requires "
+               f"{sorted(want)}", module=mod, node=bp.node or (bp.cond[-1][2] if bp.cond else lp), func=fn.name, construct=kind)
+    run.ob("F6", covered == set(spec), "every state has a branch", f"states without a branch: {sorted(set(spec) - covered)}", module=mod,
+           node=lp, func=fn.name, construct="state dispatch")
+    # before the loop: start in the marker search with nothing pending
+    pre = paths.Summariser(mod, fn).run(fn.body[: fn.body.index(lp)])[1]
+    ok = len(pre) == 1 and all(pre[0].env.get(k) is not None and paths.text(pre[0].env[k]).replace("b''", "bytes()") == v
+                               for k, v in (("state", M), ("value", "bytes()"), ("marker", "bytes()")))
+    run.ob("F6", ok, "the scan starts in the marker search with no pending digit", "initial scanner state changed", module=mod, node=fn,
+           func=fn.name, construct="scanner start")
 
 
 def f7(run, project):
